@@ -26,18 +26,17 @@ theorem step_stop {e : Env} {s : SpecSt} {m m' : MState} {j : Nat} (R : Rel s m)
   show erasePeer j m.running = erasePeer j s.running
   rw [R.running]
 
-theorem cleanOutcomes_gone {keep prev nb : Nat} {gone : Bool}
-    (h : (cleanOutcomes keep false prev).contains (gone, nb) = true) : gone = true := by
+theorem cleanOutcomes_gone {keep prev nb : Nat} {slash gone : Bool}
+    (h : (cleanOutcomes keep slash prev).contains (gone, nb) = true) : gone = true := by
   simp only [cleanOutcomes, cleanupRaft, makeBackup, List.map_cons, List.map_nil, List.contains_cons,
     List.contains_nil, Bool.or_false, Bool.or_eq_true, beq_iff_eq] at h
   rcases h with h | h <;> simpa using congrArg Prod.fst h
 
 theorem step_clean {e : Env} {s : SpecSt} {m m' : MState} {j nb : Nat} {g : Bool} (R : Rel s m)
-    (hsl : e.slash = false) (hs : step e m (.clean j g nb) = some m') : StepGoal s m m' (.clean j g nb) := by
+    (hs : step e m (.clean j g nb) = some m') : StepGoal s m m' (.clean j g nb) := by
   simp only [step] at hs
   split_ifs at hs with hg
   injection hs with hs; subst hs
-  rw [hsl] at hg
   have hg' := cleanOutcomes_gone hg
   refine ⟨⟨R.ids, R.pins, ?_, R.departed⟩, rfl, rfl, ?_⟩
   · show erasePeer j m.running = erasePeer j s.running
@@ -495,7 +494,7 @@ theorem step_peerRm {e : Env} {s : SpecSt} {m m' : MState} {a p : Nat} {res : Re
   · split_ifs at hs <;> (injection hs with hs; subst hs; rfl)
 
 /-- every step the model allows keeps the relation and meets the step's clauses -/
-theorem step_rel {e : Env} {s : SpecSt} {m m' : MState} {op : Op} (R : Rel s m) (hsl : e.slash = false)
+theorem step_rel {e : Env} {s : SpecSt} {m m' : MState} {op : Op} (R : Rel s m)
     (hs : step e m op = some m') : StepGoal s m m' op := by
   cases op with
   | start j => exact step_start R hs
@@ -508,12 +507,12 @@ theorem step_rel {e : Env} {s : SpecSt} {m m' : MState} {op : Op} (R : Rel s m) 
   | sync j r => exact step_sync R hs
   | stop j => exact step_stop R hs
   | restart j => exact step_restart R hs
-  | clean j g nb => exact step_clean R hsl hs
+  | clean j g nb => exact step_clean R hs
   | join j via r pins => exact step_join R hs
   | peerRm a p r calls => exact step_peerRm R hs
   | leave j r => exact step_leave R hs
 
-theorem replay_rel {e : Env} (hsl : e.slash = false) {ops : List Op} :
+theorem replay_rel {e : Env} {ops : List Op} :
     ∀ {s : SpecSt} {m m' : MState}, Rel s m → replay e m ops = some m' →
     Rel (finalSt s ops) m' ∧ m'.repin = m.repin ∧ (checkOps m.repin s ops).all (·.2) = true := by
   induction ops with
@@ -529,7 +528,7 @@ theorem replay_rel {e : Env} (hsl : e.slash = false) {ops : List Op} :
     | none => rw [hst] at h; cases h
     | some m1 =>
       rw [hst] at h
-      obtain ⟨R1, hrp, _, hc⟩ := step_rel R hsl hst
+      obtain ⟨R1, hrp, _, hc⟩ := step_rel R hst
       obtain ⟨R2, hrp2, hc2⟩ := ih R1 h
       refine ⟨R2, hrp2.trans hrp, ?_⟩
       simp only [checkOps, List.all_append, Bool.and_eq_true]
@@ -542,12 +541,10 @@ theorem rel_init (tier : Tier) (repin : Bool) (init : List Nat) : Rel (specInit 
   simp only [cfgAt, List.foldl_cons, List.foldl_nil, applyCfg]
   exact cfgIds_initCfg init
 
-theorem obs_clauses {e : Env} (hsl : e.slash = false) {s : SpecSt} {m : MState} (R : Rel s m) {o : Obs}
+theorem obs_clauses {e : Env} {s : SpecSt} {m : MState} (R : Rel s m) {o : Obs}
     (h : obsOk e m o = true) :
     (checkObs s o).all (·.2) = true := by
   unfold obsOk at h
-  rw [hsl] at h
-  simp only [Bool.or_false] at h
   simp only [Bool.and_eq_true] at h
   obtain ⟨⟨hmem, _⟩, hgone⟩ := h
   rw [List.all_eq_true] at hmem hgone
